@@ -35,6 +35,12 @@ def wire_alloc(ctx, defs):
             ty = None
             if len(d.value) == 1 and isinstance(d.value[0], str):
                 ty = next((s["ty"] for s in sibs if s["name"] == d.value[0]), None)
+            # `sibling.field` where the sibling is another binrw struct of this crate
+            if ty is None and len(d.value) == 3 and d.value[1] == "." and all(isinstance(x, str) for x in d.value):
+                sty = next((s_["ty"] for s_ in sibs if s_["name"] == d.value[0]), None)
+                sit = next((i for i in items.items if sty and i["name"] == sty.split("::")[-1] and i["kind"] == "struct"), None)
+                if sit:
+                    ty = next((s_["ty"] for s_ in sit["fields"] if s_["name"] == d.value[2]), None)
             if ty in NARROW:
                 ctx.ob("WIREALLOC", key, True, f"count = {d.text}: {ty} (at most 65535 bytes)", it["file"], f["line"])
                 continue
